@@ -162,6 +162,43 @@ theorem identifier_exact (c : Char) (s rest : List Char) (hc : idStart c = true)
   rw [e1] at h
   exact ⟨_, h, rfl, by simp only [evIdent, textOf]; simpa using e2⟩
 
+/-- The tree `Identifier` builds for `c :: s` (greedy split into start and part characters). -/
+def idTree (c : Char) (s : List Char) : Tree :=
+  .act "Identifier1" (c :: s)
+    (.seq [.seq ((c :: s.takeWhile idStart).map fun x => Tree.text [x]), .seq ((s.dropWhile idStart).map fun x => Tree.text [x])])
+
+/-- `identifier_exact` with the tree made explicit, as a `ParsesTo` fact. -/
+theorem identifier_parses (c : Char) (s rest : List Char) (hc : idStart c = true) (hs : ∀ x ∈ s, idPart x = true)
+    (hrest : StopsAt idPart rest) : ParsesTo grammar (.ref "Identifier") (c :: s ++ rest) (idTree c s) rest (s.length + 12) := by
+  intro F hF
+  have hsplit : s.takeWhile idStart ++ s.dropWhile idStart = s := List.takeWhile_append_dropWhile
+  have hlen : (s.takeWhile idStart).length + (s.dropWhile idStart).length = s.length := by
+    rw [← List.length_append, hsplit]
+  have hab : StopsAt idStart (s.dropWhile idStart ++ rest) := by
+    intro d r hd
+    cases hb : s.dropWhile idStart with
+    | nil =>
+      rw [hb] at hd
+      have := hrest d r (by simpa using hd)
+      cases h : idStart d with
+      | false => rfl
+      | true => rw [idStart_idPart h] at this; cases this
+    | cons d' b' =>
+      rw [hb] at hd
+      simp only [List.cons_append, List.cons.injEq] at hd
+      rw [← hd.1]; exact dropWhile_head idStart s d' b' hb
+  have h := identifier_split c (s.takeWhile idStart) (s.dropWhile idStart) rest hc (takeWhile_all idStart s)
+    (fun x hx => hs x (dropWhile_mem idStart s x hx)) hab hrest F (by omega)
+  have e1 : c :: (s.takeWhile idStart ++ (s.dropWhile idStart ++ rest)) = c :: s ++ rest := by
+    rw [← List.append_assoc, hsplit]; rfl
+  have e2 : (c :: s.takeWhile idStart ++ s.dropWhile idStart) = c :: s := by
+    rw [List.cons_append, hsplit]
+  simp only [List.append_assoc, List.cons_append] at h
+  rw [e1] at h
+  simp only [List.cons_append] at e2
+  rw [e2] at h
+  simpa [parse, idTree] using h
+
 /-! ### integer constants -/
 
 theorem lk_IntConstant : grammar.lookup "IntConstant" = some rule_IntConstant := by rfl
